@@ -194,6 +194,19 @@ where
                         Poll::Ready(()) => {
                             // Sleep complete - check retry_on_reconnect flag
                             if this.config.retry_on_reconnect {
+                                // Tower contract: drive the service to readiness before
+                                // calling it again. A finished `Sleep` stays ready, so
+                                // returning `Pending` here simply resumes at this point.
+                                match this.inner.poll_ready(cx) {
+                                    Poll::Ready(Ok(())) => {}
+                                    Poll::Ready(Err(error)) => {
+                                        this.phase.set(Phase::Failed);
+                                        return Poll::Ready(Err(ReconnectError::ServiceError(
+                                            error,
+                                        )));
+                                    }
+                                    Poll::Pending => return Poll::Pending,
+                                }
                                 // Retry the original request (reconnection happens via clone)
                                 let call_future = this.inner.call(this.request.clone());
                                 this.phase.set(Phase::Calling(call_future));
